@@ -204,7 +204,7 @@ def run(run):
 
     # regex literal
     pats = []
-    for n in T.walk_fn(F, f_parse):
+    for n in T.walk_deep(F, f_parse["body"], 2):
         if T.is_call(n, "new") and "Regex" in n["f"] and n["a"]:
             a = T.peel(n["a"][0])
             if a.get("k") == "Lit" and a.get("lt") == "str":
@@ -323,10 +323,18 @@ def run(run):
             def assume(n, v=v):
                 k = n.get("k")
                 ty = (F.ty(n) or "").replace("&", "").strip()
-                if ty.endswith("Datatype") and k in ("Var", "Upvar", "Deref", "Field"):
+                if ty.endswith("Datatype") and k in ("Var", "Upvar", "Deref", "Field", "Call"):
                     return ("enum", v)
                 return None
             spec = PE.Spec(F, assume=assume)
+            # a body (the parser or a closure that maps one specifier to a Result) whose every result is Err for this type
+            for b in bodies_:
+                if "result::Result" not in (F.tyi(b["ret"]) if isinstance(b.get("ret"), int) else (F.ty(b["body"]) or "")):
+                    continue
+                res_, _n = PE.Spec(F, assume=assume).results(b["body"], {})
+                kinds_ = [PE.result_kind(r) for r in res_]
+                if kinds_ and all(k_ == "Err" for k_ in kinds_):
+                    rej.add(v)
             for n, conds in errs:
                 for cd in conds:
                     if cd[0] != "if":
@@ -335,7 +343,7 @@ def run(run):
                         c = spec.cev(src, {})
                         if c == ("bool", cd[2]):
                             rej.add(v)
-        return rej, bool(errs)
+        return rej, bool(errs) or bool(rej)
 
     run.guarded("R1", r1)
 
@@ -404,10 +412,9 @@ def run(run):
 
     def consumer_tolerates_missing_group():
         # the closure over captures must not use Index::index(cap, 1) unconditionally
-        for c in F.closures(f_parse):
-            for n in T.walk(c["body"]):
-                if T.is_call(n, "index") and "Captures" in (n.get("r", "") + n.get("f", "") + " ".join(n.get("ga", []))):
-                    return False
+        for n in T.walk_deep(F, f_parse["body"], 2):
+            if T.is_call(n, "index") and "Captures" in (n.get("r", "") + n.get("f", "") + " ".join(n.get("ga", []))):
+                return False
         return True
 
     run.guarded("R3", r3)
@@ -420,7 +427,7 @@ def run(run):
         def assume(n):
             k = n.get("k")
             ty = (F.ty(n) or "").replace("&", "").strip()
-            if ty.endswith("Datatype") and k in ("Var", "Upvar", "Deref", "Field"):
+            if ty.endswith("Datatype") and k in ("Var", "Upvar", "Deref", "Field", "Call"):
                 hits["n"] += 1
                 return ("enum", "Char")
             return None
